@@ -108,7 +108,11 @@ func c04core(r *simkit.Run, minSources int, forceFine bool) {
 		w.WriteHeader(ins.status)
 		_, _ = w.Write([]byte("ok"))
 	})
-	cl, err := connlimit.New(handler, extract, int64(limit))
+	var clOpts []connlimit.Option
+	if rapid.IntRange(0, 2).Draw(rt, "slow-logger") == 0 {
+		clOpts = append(clOpts, connlimit.Logger(simkit.SlowLogger{}), connlimit.Verbose(rapid.Bool().Draw(rt, "verbose")))
+	}
+	cl, err := connlimit.New(handler, extract, int64(limit), clOpts...)
 	if err != nil {
 		rt.Fatalf("connlimit.New: %v", err)
 	}
